@@ -62,8 +62,8 @@ class _B(object):
   def input(self, shape):
     return self.add({"name": self.name("in"), "kind": "input", "cls": "InputLayer", "in": []}, shape)
 
-  def act(self, x, pool=None):
-    q = self.rnd.choice(pool or AQ)
+  def act(self, x, pool=None, q=None):
+    q = q or self.rnd.choice(pool or AQ)
     return self.add({"name": self.name("act"), "kind": "act", "cls": "QActivation", "q": q, "in": [x]},
                     self.shape[x])
 
@@ -307,13 +307,29 @@ def _family_dense(b):
   return outs
 
 
-def gen_spec(rnd):
+def _family_narrow_merge(b):
+  """Directed: element-wise merge of a ternary and a binary activation (1-2 bit operand types)."""
+  rnd = b.rnd
+  f = rnd.randint(2, 16)
+  qs = ["ternary(alpha=1.0)", "binary(alpha=1.0)"]
+  rnd.shuffle(qs)
+  x1 = b.act(b.input([f]), q=qs[0])
+  x2 = b.act(b.input([f]), q=qs[1])
+  m = b.merge([x1, x2], rnd.choice(["Multiply", "Multiply", "Add", "Concatenate"]))
+  return [b.dense(m)]
+
+
+FAMILIES = {"conv2d": _family_conv2d, "conv1d": _family_conv1d, "dense": _family_dense,
+            "narrow_merge": _family_narrow_merge}
+
+
+def gen_spec(rnd, family=None):
   """Random model description; shapes and loop-nest counts are attached to the nodes."""
   for _attempt in range(50):
     b = _B(rnd)
-    fam = rnd.choices(["conv2d", "conv1d", "dense"], [6, 2, 2])[0]
+    fam = family or rnd.choices(["conv2d", "conv1d", "dense"], [6, 2, 2])[0]
     try:
-      outs = {"conv2d": _family_conv2d, "conv1d": _family_conv1d, "dense": _family_dense}[fam](b)
+      outs = FAMILIES[fam](b)
     except ops.RefError:
       continue
     ins = [n["name"] for n in b.nodes if n["kind"] == "input"]
